@@ -265,3 +265,154 @@ def replay(func, cex):   # noqa: F811
         return {"violated": bool(why), "observed": why, "what": f"program {p['name']} f({a}, {b}, {bool(c)}): {why}\n{p['src']}",
                 "fingerprint": f"cfg:{p['name']}:{p.get('hash') or __import__('hashlib').sha256(p['src'].encode()).hexdigest()[:10]}"}
     return _replay_equiv(func, cex)
+
+
+# ---- C06: reaching definitions ---------------------------------------------------------------------------------------
+def rd_tables(i):
+    """(stmt -> set of def stmt ids lian lets reach it (union over contexts), set of analysed stmts) - built natively."""
+    p = BATCH["programs"][i]
+    if "_rd" not in p:
+        reach, analysed = {}, set()
+        for r in p.get("status", []):
+            sid = r["stmt_id"]
+            analysed.add(sid)
+            bits = r.get("in_symbol_bits")
+            if isinstance(bits, str):
+                bits = json.loads(bits)
+            reach.setdefault(sid, set()).update(d["stmt_id"] for d in (bits or []))
+        p["_rd"] = ({k: frozenset(v) for k, v in reach.items()}, frozenset(analysed))
+    return p["_rd"]
+
+
+def rd_violation(i, args):
+    reach, analysed = rd_tables(i)
+    writers = {}
+    problems = []
+    iters = {}
+
+    def on_def(act, row, name, value):
+        writers[(act.id, name)] = row["stmt_id"]
+
+    def on_use(act, owner, name):
+        if owner is not act or problems:
+            return                      # closure / module variables: not a local definition of this activation
+        cur = getattr(act, "cur", None)
+        if cur is None:
+            return
+        d = writers.get((act.id, name))
+        if d is None:
+            return
+        u = cur["stmt_id"]
+        if u == d and cur["operation"] == "parameter_decl":
+            return
+        if u not in analysed:
+            return                      # reported by the coverage obligation, not here
+        if d not in reach.get(u, ()):
+            problems.append(f"`{name}` used at statement {u} ({cur['operation']}) was last written at statement {d}, which is not "
+                            f"in the reaching set {sorted(reach.get(u, ()))} lian stores for {u}")
+
+    def on_stmt(act, row):
+        if row["operation"] in ("while_stmt", "forin_stmt", "for_stmt"):
+            k = (act.id, row["stmt_id"])
+            iters[k] = iters.get(k, 0) + 1
+    outs, ret, err = run_gir(i, args, hooks={"on_def": on_def, "on_use": on_use, "on_stmt": on_stmt})
+    if any(v > 2 for v in iters.values()):
+        return None                     # some loop body ran more than once: outside the property's claim
+    return problems[0] if problems else None
+
+
+def check_rd(pidx: int, a: int, b: int, c: bool) -> bool:
+    """
+    pre: _pre(pidx, a, b) and 0 <= a <= 1 and 0 <= b <= 1
+    post: _
+    """
+    why = rd_violation(pidx, (a, b, c))
+    if why:
+        return fail("rd", prog=BATCH["programs"][pidx]["name"], pidx=pidx, args=[a, b, c], why=why)
+    return True
+
+
+def check_rd_reach(pidx: int, a: int, b: int, c: bool) -> bool:
+    """
+    pre: _pre(pidx, a, b) and 0 <= a <= 1 and 0 <= b <= 1
+    post: _
+    """
+    reach, analysed = rd_tables(pidx)
+    return not (len(analysed) >= 3 and rd_violation(pidx, (a, b, c)) is None)
+
+
+def classical_rd(i):
+    """Concrete: classical reaching definitions over lian's own CFG for named variables; compare with lian's in-sets on
+    loop-free methods.  Returns list of problems."""
+    from vlib.gir_interp import Unit
+    p = BATCH["programs"][i]
+    u = Unit(p["rows"])
+    reach, analysed = rd_tables(i)
+    out = []
+    for m, edges in cfg_of(i).items():
+        nodes = {x for e in edges for x in e if x > 0}
+        if not nodes:
+            continue
+        rows = {n: u.by_id.get(n) for n in nodes}
+        if any(r is not None and r["operation"] in ("while_stmt", "forin_stmt", "for_stmt", "dowhile_stmt") for r in rows.values()):
+            continue                    # equality is claimed on loop-free code only
+        defs = {}
+        for n, r in rows.items():
+            if r is None:
+                continue
+            name = None
+            if r["operation"] in ("variable_decl", "parameter_decl", "forin_stmt"):
+                name = r.get("name")
+            elif r["operation"] in ("array_write", "array_append"):
+                name = r.get("array")
+            elif r["operation"] == "record_write":
+                name = r.get("receiver_record")
+            elif r["operation"] == "field_write":
+                name = r.get("receiver_object")
+            elif "target" in r:
+                name = r.get("target")
+            if isinstance(name, str) and not name.startswith("%"):
+                defs[n] = name
+        preds = {}
+        for (s, d) in edges:
+            if d > 0:
+                preds.setdefault(d, set()).add(s)
+        IN = {n: set() for n in nodes}
+        OUT = {n: set() for n in nodes}
+        changed = True
+        while changed:
+            changed = False
+            for n in sorted(nodes):
+                i_n = set()
+                for q in preds.get(n, ()):
+                    i_n |= OUT.get(q, set())
+                o_n = set(i_n)
+                if n in defs:
+                    o_n = {d for d in o_n if defs.get(d) != defs[n]} | {n}
+                if i_n != IN[n] or o_n != OUT[n]:
+                    IN[n], OUT[n] = i_n, o_n
+                    changed = True
+        for n in sorted(nodes):
+            if n not in analysed:
+                continue
+            want = {d for d in IN[n] if d in defs}
+            got = {d for d in reach.get(n, ()) if d in defs}
+            if want != got:
+                out.append(f"method {m} statement {n}: lian's reaching definitions of named variables {sorted(got)} != classical "
+                           f"solution over its own CFG {sorted(want)}")
+    return out[:2]
+
+
+_replay_cfg = replay
+
+
+def replay(func, cex):   # noqa: F811
+    if func.startswith("check_rd"):
+        prepare({"batch": SLICE["batch"]}) if not BATCH["programs"] else None
+        i = cex["pidx"]
+        a, b, c = cex["args"]
+        p = BATCH["programs"][i]
+        why = rd_violation(i, (a, b, bool(c)))
+        return {"violated": bool(why), "observed": why, "what": f"program {p['name']} f({a}, {b}, {bool(c)}): {why}\n{p['src']}",
+                "fingerprint": f"rd:{p['name']}:{p.get('hash') or __import__('hashlib').sha256(p['src'].encode()).hexdigest()[:10]}"}
+    return _replay_cfg(func, cex)
